@@ -16,7 +16,7 @@ type Env struct {
 	vars   map[string]Val
 	now    *Heap
 	old    *Heap
-	locals func(name string) (Val, bool)           // source-level locals (loop invariants)
+	locals func(name string) (Val, bool)              // source-level locals (loop invariants)
 	seen   func(n int, k Val, h *Heap) (string, bool) // seen-set of map-range loop n (0 = current)
 	depth  int
 }
